@@ -313,7 +313,7 @@ def expected_parse(m, loc, assumed, unk, fmt, data):
     else:
         tzh, tzm = loc
     if "yday" in got:
-        if int(got.get("month", "0")) or int(got.get("day", "0")):
+        if "month" in got or "day" in got:
             return ("err", "month/day and day-of-year are both given")
         t = ("o", year, int(got["yday"]), 0, hh, mi, ss, tzh, tzm)
     else:
@@ -494,19 +494,19 @@ def fmt_class(fmt):
 
 
 def point_class(m, t):
+    """One tag per point, the most interesting boundary it sits on."""
     civ = civil(m, t)
     if not 0 <= civ["year"] <= 9999:
         return "year-out"
-    tags = []
     if civ["year"] != t[1]:
-        tags.append("civil-year-differs")
-    if civ["year"] < 1000:
-        tags.append("short-year")
-    if civ["off"] < 0:
-        tags.append("neg-off")
+        return "civil-year-differs"
     if t[4] == 24:
-        tags.append("24h")
-    return "+".join(tags) or "plain"
+        return "24h"
+    if civ["off"] < 0:
+        return "neg-off-zeroH" if t[7] == 0 else "neg-off"
+    if civ["year"] < 1000:
+        return "short-year"
+    return "plain"
 
 
 # ---------------------------------------------------------------------------------------------------------
@@ -571,7 +571,7 @@ class Strftime(Op):
                 return "%s: harness self-check failed, CPython datetime prints %r, the oracle %r" % (what, ref, want)
 
     def label(self, a):
-        return "strftime/%s/%s/%s/%s" % (a[0], a[1][0], fmt_class(a[2]), point_class(a[0], a[1]))
+        return "strftime/%s/%s/%s" % (a[1][0], fmt_class(a[2]), point_class(a[0], a[1]))
 
     def nontrivial(self, a):
         return point_class(a[0], a[1]) != "plain" or fmt_class(a[2]) != "literal-only"
@@ -700,7 +700,7 @@ class Strptime(Op):
     def label(self, a):
         m, c, data, fmt = a
         kind, _ = expected_parse(m, (c[0], c[1]), None if c[2] is None else (c[2], c[3]), c[4], fmt, data)
-        return "strptime/%s/%s/%s" % (a[0], fmt_class(fmt), kind.split(":")[0])
+        return "strptime/%s/%s" % (fmt_class(fmt), kind.split(":")[0])
 
     def nontrivial(self, a):
         return fmt_class(a[3]) != "literal-only"
@@ -813,7 +813,7 @@ class RoundTrip(Op):
                    "assumed zone: %s" % (what, text, back, T.describe_tp(want))
 
     def label(self, a):
-        return "strfp/%s/%s/%s/%s" % (a[0], a[2][0], fmt_class(a[3]), point_class(a[0], a[2]))
+        return "strfp/%s/%s/%s" % (a[2][0], fmt_class(a[3]), point_class(a[0], a[2]))
 
     def nontrivial(self, a):
         return True
